@@ -177,8 +177,13 @@ CHECKS = {
              'mixed-product property of the Kronecker construction and the ordering matrix being a signed permutation matrix; hence for all '
              'operands asmatrix is linear, multiplicative, injective, frommatrix inverts it.  The code\'s two branches (combinations for a default basis, products along the names for a custom one) are proved '
              'to give the same matrices on every default algebra of every dimension.  (The exhaustive d <= 4 computation is kept as an '
-             'independent cross-check.)  PARTIAL only in that expr_as_matrix is not modelled: direct oracle (exploration).',
-        technique='Rocq proof (abstract algebra + induction on the Kronecker construction, no enumeration) + exhaustive kernel computation as cross-check + differential correspondence',
+             'independent cross-check.)  expr_as_matrix (Model/ExprMatrix.v): the coefficient extraction on the expanded sum gives A with '
+             'A . x = y for every y linear in x, entries free of x, res_like rows = rows of the full matrix; the identity holds iff every '
+             'monomial with a non-zero coefficient contains exactly one x symbol to the power 1 (refuted for constant, quadratic and bilinear terms); '
+             'every operator expression of degree 1 in x (the nine products on either side, sandwich, involutions, duals, sums) is linear, so '
+             'the hypothesis is provably met for the main use; the symbolic A of the implementation is compared entry by entry with the model '
+             'in Coq (numeric / array-valued other inputs: direct oracle, backed by naturality).',
+        technique='Rocq proof (abstract algebra + induction on the Kronecker construction, no enumeration; coefficient extraction on expanded polynomials over an abstract commutative ring, two-sorted invariant + naturality for operator expressions) + exhaustive kernel computation as cross-check + differential correspondence',
         ref='DESIGN.md 4 (C18)'),
     'C19': dict(
         text='PARTIAL.  Theorems about Model/Series.v for every well-formed algebra and every commutative Q-algebra of coefficients: the '
